@@ -73,8 +73,11 @@ def run(prop, tier, seed, replay):
     from yaw.config import BinningConfig, Configuration
     from yaw.redshifts import HistData
 
-    ck = Check(prop, tier, seed, kernels=["k_binning"], theorems=THEOREMS,
-               lean_modules=["YawVerif.Props.C10"], rule=RULE,
+    import plan_tie
+    ck = Check(prop, tier, seed, kernels=["k_binning", "k_plan"], theorems=THEOREMS + plan_tie.THEOREMS,
+               lean_modules=["YawVerif.Props.C10", plan_tie.MODULE],
+               rule=RULE + "; measurement plans: autocorrelate / crosscorrelate instrumented for every presence pattern "
+                           "of the random catalogs (roles of the trees, closed side forwarded, CorrFunc members)",
                assumptions=["np.digitize / np.histogram semantics as documented by numpy (modelled)",
                             "float comparison of identical binary64 values is exact"])
     ck.translate()
@@ -84,6 +87,7 @@ def run(prop, tier, seed, replay):
     if ck.tie_breaks:
         n_cases *= 2
     root = C.scratch_root()
+    plan_tie.check_plan(ck, root)
     reqs, cases = [], []
     try:
         with C.Workers(1):
